@@ -24,7 +24,7 @@ META = {
     "rule": "states = every gate sequence up to length L over {x,cx,ccx,h,swap,barrier} on 2 and 3 qubits (each circuit once, built through "
             "the real API); circuit_boolean_optimizer(qc) (no preserve list) must return a circuit with the same number of qubits, the same "
             "unitary (state-vector simulator, exact to 1e-9: classical sections leave no phase freedom), no more non-barrier gates, and must "
-            "leave qc's gate list / qubit map untouched; an exception is a violation. Non-trivial = the circuit has a classical section of "
+            "leave qc's gate list / qubit map untouched; an exception is a violation. Each operand is also given as copy(vanilla=True) of itself, and the result is optimised a second time (same demands). Non-trivial = the circuit has a classical section of "
             ">= 2 gates; distinct = distinct gate lists.",
     "bound": {"quick": "n=3 L<=4 (137k circuits), n=2 L<=5", "thorough": "n=3 L<=5 (2.6M), n=2 L<=7, n=3 with z/cz separators L<=4"},
     "assumptions": ["svsim (numpy unitary simulator, cross-checked against qiskit's Operator and against bitsim) is the meaning of a circuit"],
